@@ -30,7 +30,7 @@ use rustc_middle::mir::{
     StatementKind, TerminatorKind, UnwindAction,
 };
 use rustc_middle::ty::adjustment::PointerCoercion;
-use rustc_middle::ty::print::with_no_trimmed_paths;
+use rustc_middle::ty::print::{with_no_trimmed_paths, with_no_visible_paths, with_resolve_crate_name};
 use rustc_middle::ty::{self, EarlyBinder, Instance, InstanceKind, Ty, TyCtxt, TypingEnv};
 use rustc_span::Span;
 use std::collections::{HashMap, VecDeque};
@@ -60,13 +60,13 @@ impl rustc_driver::Callbacks for Cb {
         let ws = env_list("VERIF_WS_CRATES");
         let roots = std::env::var("VERIF_ROOTS_CRATE").unwrap_or_default();
         if ws.iter().any(|c| *c == krate) {
-            let j = with_no_trimmed_paths!(crate_facts(tcx, &krate));
+            let j = with_resolve_crate_name!(with_no_visible_paths!(with_no_trimmed_paths!(crate_facts(tcx, &krate))));
             let mut s = String::new();
             j.write(&mut s);
             std::fs::write(format!("{}/crate_{}.json", out_dir, krate), s).expect("write facts");
         }
         if krate == roots {
-            let j = with_no_trimmed_paths!(mono_facts(tcx, &ws, &krate));
+            let j = with_resolve_crate_name!(with_no_visible_paths!(with_no_trimmed_paths!(mono_facts(tcx, &ws, &krate))));
             let mut s = String::new();
             j.write(&mut s);
             std::fs::write(format!("{}/mono.json", out_dir), s).expect("write facts");
